@@ -82,6 +82,14 @@ class Obligation:
         self.name, self.pc, self.goal, self.prop, self.meta = name, list(pc), goal, prop, meta or {}
 
 
+class _Unbound:
+    def __repr__(self):
+        return "<unbound>"
+
+
+UNBOUND = _Unbound()
+
+
 class Engine:
     def __init__(self, genv=None, classes=None, methods=None, attrs=None, exc_parents=None, label="", prop=None):
         self.genv = dict(genv or {})
@@ -305,6 +313,9 @@ class Engine:
     def ev_Name(self, e, st):
         for f in reversed(st.frames):
             if e.id in f:
+                if f[e.id] is UNBOUND:
+                    self.raise_(ExcVal("NameError", (e.id,)), st)
+                    return []
                 return [(f[e.id], st)]
         if self.globals_obj is not None and e.id in st.H(self.globals_obj):
             return [(st.H(self.globals_obj)[e.id], st)]
@@ -1183,6 +1194,16 @@ class Engine:
                 raise Unsupported("lstrip on a symbolic string that may start with the character")
             if name in ("lower", "upper") and not args:
                 return [(PY_CASE[name](recv), s)]        # uninterpreted: only `the same function of the same text` is known
+            if name in ("endswith", "startswith") and len(args) == 1:
+                lit = lambda x: z3.StringVal(x.decode("latin1") if isinstance(x, bytes) else x)
+                alts = args[0] if isinstance(args[0], tuple) else (args[0],)
+                if all(isinstance(x, (str, bytes)) for x in alts):
+                    f_ = z3.SuffixOf if name == "endswith" else z3.PrefixOf
+                    return [(z3.Or(*[f_(lit(x), recv) for x in alts]) if len(alts) != 1 else f_(lit(alts[0]), recv), s)]
+            if name == "count" and len(args) == 1 and isinstance(args[0], (str, bytes)):
+                n_ = PY_COUNT(recv, z3.StringVal(args[0].decode("latin1") if isinstance(args[0], bytes) else args[0]))
+                s = self.fork(s, n_ >= 0)                # number of non-overlapping occurrences: uninterpreted, non-negative
+                return [(n_, s)]
             raise Unsupported(f"method {name} on a symbolic string")
         if is_sym(recv) and z3.is_int(recv) and name == "bit_length":
             raise Unsupported("bit_length")
@@ -1389,6 +1410,7 @@ class Engine:
                 if name in f:
                     f[name] = v
                     return
+            raise Unsupported(f"nonlocal {name!r}: no enclosing binding in the modelled frames")
         if name in fr.get("__global__", ()):
             if self.globals_obj is None:
                 raise Unsupported("write to a module global without a globals object")
@@ -1477,6 +1499,10 @@ class Engine:
 
     def ex_AnnAssign(self, n, st):
         if n.value is None:
+            # `x: T` binds nothing, but makes x a local of this scope (a nested function may name it `nonlocal`)
+            if isinstance(n.target, ast.Name) and n.target.id not in st.frames[-1]:
+                st = self.fork(st)
+                st.frames[-1][n.target.id] = UNBOUND
             return [("normal", None, st)]
         return self.ex_Assign(ast.Assign([n.target], n.value, lineno=n.lineno), st)
 
@@ -2104,6 +2130,7 @@ def _b_int(eng, s, args, kw):
 
 PY_FLOAT = z3.Function("py_float", z3.StringSort(), z3.RealSort())
 PY_INT = z3.Function("py_int", z3.StringSort(), z3.IntSort())
+PY_COUNT = z3.Function("py_str_count", z3.StringSort(), z3.StringSort(), z3.IntSort())
 PY_CASE = {"lower": z3.Function("py_str_lower", z3.StringSort(), z3.StringSort()), "upper": z3.Function("py_str_upper", z3.StringSort(), z3.StringSort())}
 
 
